@@ -237,10 +237,11 @@ fn main() {
             st.distinct_nontrivial.insert(h.finish());
         }
         // every hang costs the full watchdog time: after a dozen of them the stream is cut short (the run has its verdict)
-        if res.oracle.as_deref().is_some_and(|o| o.contains("(hang)")) {
-            st.hangs += 1;
-            if st.hangs > MAX_HANGS {
-                writeln!(out, "ORACLE\tstream-cut\tmore than {} cases gave no verdict within {} s each; the remaining cases of this stream were not run", MAX_HANGS, CASE_TIMEOUT_S).unwrap();
+        if res.oracle.as_deref().is_some_and(|o| o.contains("did not return a verdict")) {
+            // a hang costs the whole watchdog time, a crash a worker restart (and often seconds of runaway allocation before it)
+            st.hangs += if res.oracle.as_deref().is_some_and(|o| o.contains("(hang)")) { 4 } else { 1 };
+            if st.hangs > 4 * MAX_HANGS {
+                writeln!(out, "ORACLE\tstream-cut\tmore than {} cases gave no verdict within {} s (or four times as many crashed the worker); the remaining cases of this stream were not run", MAX_HANGS, CASE_TIMEOUT_S).unwrap();
                 st.oracle += 1;
                 if let Some(d) = res.diff { st.diffs += 1; if st.diffs <= 200 { writeln!(out, "DIFF\t{}\t{}", line.replace('\t', "\u{1f}"), d).unwrap(); } }
                 break;
